@@ -39,7 +39,7 @@ def check_c09(rep):
     for proto in ("at4", "at5"):
         l2c_exhaustive(rep, f"handshake / init() / shutdown interleavings ({proto})",
                        dict(PROTO=f'"{proto}"', MaxEnv=9 if q else 11, MaxFrames=7))
-    l2c_replay(rep, 600 if q else 12000)
+    l2c_replay(rep, 600 if q else 3000)
     rep.assumptions += API_ASSUME
 
 
@@ -93,7 +93,7 @@ def check_c15_api(rep, n):
     if n > 500:
         l2c_exhaustive(rep, "shutdown() enabled in every state of the client (at5)", dict(PROTO='"at5"', MaxEnv=11, MaxFrames=7))
         l2c_sensitivity(rep, "F_RECHECK", dict(PROTO='"at4"', MaxEnv=10, MaxFrames=7), "ShutdownIsFinal")
-    l2c_replay(rep, 400 if n <= 500 else 8000)
+    l2c_replay(rep, 400 if n <= 500 else 3000)
 
 
 def check_c02_api(rep, n):
@@ -137,7 +137,7 @@ def check_c12(rep):
                        dict(PROTO=f'"{proto}"', MaxEnv=4 if q else 5, MaxFrames=10, Notifies="TRUE", PostInit="TRUE", Subs="TRUE"), timeout=3000)
     if not q:
         l2c_sensitivity(rep, "F_ZONE2AC", dict(PROTO='"at5"', MaxEnv=4, MaxFrames=10, Notifies="TRUE", PostInit="TRUE", Subs="TRUE"), "ContractHolds")
-    l2c_replay(rep, 300 if q else 6000, over=dict(Subs="TRUE", PostInit="TRUE", MaxEnv=9, MaxFrames=12),
+    l2c_replay(rep, 300 if q else 2500, over=dict(Subs="TRUE", PostInit="TRUE", MaxEnv=9, MaxFrames=12),
                what="ClientImpl schedules with (un)subscriptions replayed into the real client")
     rep.assumptions += API_ASSUME
 
@@ -165,7 +165,7 @@ def l2c_commands(rep, q):
         l2c_exhaustive(rep, f"control calls x link loss x shutdown x clock, after the first initialisation ({proto})",
                        dict(PROTO=f'"{proto}"', MaxEnv=4 if q else (6 if proto == "at4" else 5), MaxFrames=9, Notifies="FALSE",
                             PostInit="TRUE", Cmds="TRUE"), timeout=3000)
-    l2c_replay(rep, 400 if q else 8000, over=dict(Cmds="TRUE", PostInit="TRUE", MaxEnv=8, MaxFrames=12),
+    l2c_replay(rep, 400 if q else 2500, over=dict(Cmds="TRUE", PostInit="TRUE", MaxEnv=8, MaxFrames=12),
                what="ClientImpl schedules with control calls replayed into the real client")
 
 
@@ -283,7 +283,7 @@ def l2c_replay(rep, n, over=None, what="ClientImpl schedules replayed into the r
         scripts, gen, bad = L2C.simulate_scripts(n // 2, lib.seed() % 100000, proto, over=over)
         if bad:
             rep.part("note", text="ClientImpl simulation reported a violation in the MODEL", tail=bad[0][-600:])
-        for i, l2 in enumerate(scripts):
+        for i, l2 in enumerate(scripts[:max(1, n // 2)]):     # (the invariant prints several prefixes per behaviour: cap)
             hs, meta = L2C.to_harness(l2, proto, seed=i)
             batch.append((f"l2c-{proto}-{i}", proto, hs, meta))
     verdicts, metas = PC.run_batch(rep, batch)
